@@ -1,4 +1,41 @@
-(* C06 placeholder, replaced below *)
-From RV Require Import Model.Mapping.
-Theorem C06_placeholder : True. Proof. exact I. Qed.
-Eval cbv in "ASSUMPTIONS-OF C06_placeholder"%string. Print Assumptions C06_placeholder.
+(* C06  Escaped markers are literal; marker-free strings are untouched.  Statements only; proofs
+   in Proofs/ParserFacts.v about Model/Parser.v (transliteration of the nom grammar).
+   The grammar itself is tied to the code by the exhaustive comparison of parse trees over
+   {$ { } [ \ : a} (length <= 6 quick, <= 8 thorough) through the Token hook. *)
+From RV Require Import Model.Parser Model.Interp Proofs.ParserFacts.
+
+(** A string containing no reference marker is not parsed and renders unchanged, as a literal. *)
+Theorem C06_marker_free_string_untouched :
+  forall s, has_marker s = false ->
+    token_parse s = NoRef /\
+    forall f root st, interp (S f) root (VStr s) st = Ok (VLit s, st).
+Proof.
+  intros s H. split; [now apply no_marker_no_parse|]. intros f root st. cbn [interp].
+  now rewrite (no_marker_no_parse s H).
+Qed.
+Eval cbv in "ASSUMPTIONS-OF C06_marker_free_string_untouched"%string. Print Assumptions C06_marker_free_string_untouched.
+
+(** The parser always terminates (it never exhausts the model's loop fuel; nesting deeper than
+    128 is a parse error, not a crash). *)
+Theorem C06_parser_terminates : forall s, parse_ref s <> PFuel /\ token_parse s <> ParseFuel.
+Proof. intros s. split; [apply parse_ref_terminates | apply token_parse_terminates]. Qed.
+Eval cbv in "ASSUMPTIONS-OF C06_parser_terminates"%string. Print Assumptions C06_parser_terminates.
+
+(** A successful parse consumed the whole string: nothing is passed through or dropped. *)
+Theorem C06_whole_string_consumed : forall s r t, parse_ref s = POk r t -> r = "".
+Proof. exact parse_ref_all_consumed. Qed.
+Eval cbv in "ASSUMPTIONS-OF C06_whole_string_consumed"%string. Print Assumptions C06_whole_string_consumed.
+
+(** The escape table of the property, evaluated in the kernel on the model parser:
+    \${ and \$[ are literal markers, \} is a literal brace inside a reference, a doubled
+    backslash before a marker is one literal backslash (and the reference stays live), an
+    unclosed or empty reference is an error. *)
+Example C06_escape_table :
+  token_parse (bs ++ "${a}") = Parsed (TLit "${a}") /\
+  token_parse (bs ++ "$[a]") = Parsed (TLit "$[a]") /\
+  token_parse ("${a" ++ bs ++ "}b}") = Parsed (TRef [TLit "a}b"]) /\
+  token_parse (bs ++ bs ++ "${a}") = Parsed (TComb [TLit bs; TRef [TLit "a"]]) /\
+  token_parse ("x${a:${b}}y") = Parsed (TComb [TLit "x"; TRef [TLit "a:"; TRef [TLit "b"]]; TLit "y"]) /\
+  token_parse "${a" = ParseError /\ token_parse "${}" = ParseError /\ token_parse "a${" = ParseError /\
+  token_parse "$[a]" = Parsed (TLit "$[a]") /\ token_parse "a}b" = NoRef.
+Proof. repeat split; vm_compute; reflexivity. Qed.
